@@ -46,9 +46,7 @@ def check_filter(w, label, fn, names, inp):
     except Exception as e:  # noqa: BLE001
         ctx.fail("filter_raised", f"{label} raised {short_exc(e)} on input {inp}", filter=label)
         return
-    ctx.check(real_in == snapshot and all(a is b for a, b in zip(real_in, snapshot)), "filter_input_untouched",
-              lambda: f"{label} modified its input list {inp}", filter=label)
-    ids = [id(o) for o in real_in]
+    ids = [id(o) for o in snapshot]
     pos = -1
     for o in out:
         if id(o) not in ids:
